@@ -10,7 +10,7 @@
   are assumed not to overflow (fewer than 2^31 entries).  `nni_random()` is the argument `rnd`.
 -/
 import NngModel.Base.Bytes
-import NngModel.Generated.Consts
+import NngModel.Generated.C18
 
 namespace Nng.IdHash
 
